@@ -123,6 +123,10 @@ fn check(ctx: &mut Ctx, ops: &[Op]) {
                         outs.push(format!("err:{col_len}:{val_len}"));
                         if n == exp_cols { ctx.oracle_fail("a row of the right length was rejected", serde_json::json!({"history": line})); }
                         if col_len != exp_cols || val_len != n { ctx.oracle_fail("the mismatch error carries wrong counts", serde_json::json!({"history": line, "col_len": col_len, "val_len": val_len, "columns": exp_cols, "row_len": n})); }
+                        // .. and says so: the message names the column count first and the value count second
+                        let msg = sea_query::error::Error::ColValNumMismatch { col_len, val_len }.to_string();
+                        let nums: Vec<usize> = msg.split(|c: char| !c.is_ascii_digit()).filter(|t| !t.is_empty()).filter_map(|t| t.parse().ok()).collect();
+                        if nums != [exp_cols, n] { ctx.oracle_fail("the mismatch error's message does not report the two counts", serde_json::json!({"history": line, "message": msg, "columns": exp_cols, "row_len": n})); }
                         if st != before { ctx.oracle_fail("a rejected row changed the statement", serde_json::json!({"history": line})); }
                     }
                 }
